@@ -136,6 +136,7 @@ class RemapColumnsOp(BaseOp):
         df1[self.source_columns] = df1[self.source_columns].replace(
             np.nan, 'n/a')
         for column in self.integer_sources:
+            df1[column] = df1[column].astype(object)  # a text column (it holds n/a) cannot take the integers below
             int_mask = df1[column] != 'n/a'
             df1.loc[int_mask, column] = df1.loc[int_mask, column].astype(int)
         df1[self.source_columns] = df1[self.source_columns].astype(str)
